@@ -518,6 +518,10 @@ func EncodeDatapoint(mName []byte, tags *TagsHolder, dp float64, timestamp uint3
 		log.Errorf("EncodeDatapoint: metric name is empty, orgid=%v", orgid)
 		return fmt.Errorf("metric name is empty")
 	}
+	if badKey, found := tags.firstInvalidTagKey(); found {
+		log.Errorf("EncodeDatapoint: invalid tag key %q for metric=%s, orgid=%v", badKey, mName, orgid)
+		return fmt.Errorf("invalid tag key %q", badKey)
+	}
 	tsid, err := tags.GetTSID(mName)
 	if err != nil {
 		log.Errorf("EncodeDatapoint: failed to get TSID for metric=%s, orgid=%v, err=%v", mName, orgid, err)
